@@ -312,6 +312,56 @@ def witness_finding14(run):
     run.cov["finding14_program_changed"] = res
 
 
+def stream_random_trees(run, n):
+    """Scala: random UNTYPED trees over all node kinds (harness/c11_random_ast.py), visited from a random hand-set
+    state by the real ScalaTranslator and by the model: texts of the visits, state afterwards, and the theorem
+    `Scala.visit_state` read on the real object (everything restored except ident, which is 0 or unchanged)"""
+    import c11_random_ast as ra
+    pipeline.setup()
+    from src.translators.scala import ScalaTranslator
+    batch, reals = [], []
+    for decls, init in ra.cases(run.rng, n):
+        try:
+            real = ra.real_visit(ScalaTranslator, decls, init)
+        except Exception as e:  # noqa: BLE001  (exceptions of the translator are not modelled)
+            run.tally("random_trees_translator_raises", type(e).__name__)
+            continue
+        prog = ra.export_decls(decls)
+        batch.append(dict(init, op="trans.scala.visit", program=prog))
+        reals.append((real, init, prog))
+    answers = common.run_driver(batch) if batch else []
+    bad = 0
+    for (real, init, prog), a in zip(reals, answers):
+        if "error" in a:
+            raise common.HarnessError("driver (random trees): " + a["error"])
+        import export_ast
+        import hashlib
+        run.count({"random_tree": hashlib.sha1(common.canon(prog).encode()).hexdigest()[:16], "init": init},
+                  nontrivial=True, sample_cap=8)
+        run.cov["random_tree_nodes"] = run.cov.get("random_tree_nodes", 0) + export_ast.count_nodes(prog["decls"])
+        ms = {k: a["r"]["state"].get(k) for k in ("ident", "is_unit", "is_lambda", "_cast_integers")}
+        ms["stack_len"] = len(a["r"]["state"].get("_nodes_stack", []))
+        rs = real["state"]
+        restored = (rs["is_unit"], rs["is_lambda"], rs["_cast_integers"], rs["stack_len"]) == \
+                   (init["is_unit"], init["is_lambda"], init["_cast_integers"], 1) and rs["ident"] in (0, init["ident"])
+        if a["r"]["texts"] != real["texts"] or ms != rs or not restored:
+            bad += 1
+            if bad == 1:
+                j = next((k for k, (x, y) in enumerate(zip(a["r"]["texts"], real["texts"])) if x != y), -1)
+                import c11_plugin
+                run.violation({"kind": "broken-correspondence", "translator": "scala", "leg": "random-trees",
+                               "init": init, "program": prog, "real_state": rs, "model_state": ms,
+                               "state_restored_as_visit_state_says": restored,
+                               "first_difference": c11_plugin.first_diff(real["texts"][j], a["r"]["texts"][j]) if j >= 0 else None,
+                               "note": "the Lean model of the Scala translator and the real translator differ on a "
+                                       "hand-made (untyped) tree; the tree is the input"},
+                              signature="model-differs:scala:random-trees" if restored else "translator-state-not-restored:scala:random-trees",
+                              no_input=restored)
+    run.cov["random_trees_compared"] = len(reals)
+    run.cov["random_trees_differ"] = bad
+    run.log("random untyped trees (scala): %d compared, %d differ" % (len(reals), bad))
+
+
 # ------------------------------------------------------------------ the check
 def stream_results(specs, deadline, workers):
     """(spec, result of pipeline.run_one) in order of completion, from forked workers; stops handing out
@@ -445,6 +495,7 @@ def check(run):
     witness_block_super(run)
     if "scala" in MODELS:
         witness_scala(run)
+        stream_random_trees(run, 300 if quick else 4000)
     witness_finding14(run)
 
     nprog, hist, cap, budget = (40, 5, 100, 100) if quick else (1000, 12, 150, 1500)
